@@ -60,7 +60,7 @@ def run(R, tier, seed, driver_ok):
                 ref = zoo.CLASSES[name](**params).fit(*fa)
             Mref = ref.get_mahalanobis_matrix()
             t = zoo.TUPLE_SIZE.get(name)
-            kinds = ['array', 'list', 'callable', 'records']
+            kinds = ['array', 'list', 'callable', 'records', 'callable-list']
             for kind in kinds:
                 pre = zoo.make_preprocessor(kind, pool)
                 dt = INT_DTYPES[int(rng.randint(len(INT_DTYPES)))]
